@@ -227,17 +227,14 @@ def booter(mod, tier, base_seed, gi, nruns, opts):
   known = load_known()
   sigs = set()
   reported = set()
-  for ri in range(nruns):
-    seed = derive_seed(base_seed, mod.PROP, tier, 'run', gi, ri)
-    plan = mod.gen_plan(stream(seed, 'plan'), cfg, tier)
-    chspec = {'seed': derive_seed(seed, 'sched'), 'p_preempt': plan.get('p_preempt', 0.0),
-              'p_tie': plan.get('p_tie', 0.5), 'pct_points': plan.get('pct_points')}
-    res = run_child(w, mod, plan, chspec)
+  def absorb(seed, plan, res, enumerated=False):
     out['runs'] += 1
+    if enumerated:
+      out['enumerated'] = out.get('enumerated', 0) + 1
     if 'harness_error' in res:
       if len(out['harness_errors']) < 3:
         out['harness_errors'].append('seed %d: %s' % (seed, res['harness_error'][-1500:]))
-      continue
+      return False
     out['ends'][res.get('end', '?')] = out['ends'].get(res.get('end', '?'), 0) + 1
     out['sim_seconds'] += res.get('sim_seconds', 0.0)
     out['steps'] += res.get('steps', 0)
@@ -254,7 +251,7 @@ def booter(mod, tier, base_seed, gi, nruns, opts):
     if len(out['samples']) < 2 and nt:
       out['samples'].append({'seed': seed, 'cfg': out['cfg_sig'], 'plan': _abbrev(plan),
                              'probes': res.get('probes'), 'end': res.get('end')})
-    if opts.get('collect'):
+    if opts.get('collect') and not enumerated:
       out.setdefault('collected', []).append({'seed': seed, 'digest': res['digest'],
                                               'violations': [v['sig'] for v in res['violations']]})
     for n in res.get('notes', []):
@@ -276,6 +273,28 @@ def booter(mod, tier, base_seed, gi, nruns, opts):
       path, info = make_replay(w, mod, cfg, plan, res, v, seed, tier, minimise=opts.get('minimise', True))
       out['violations'].append({'known': False, 'sig': v['sig'], 'detail': v['detail'],
                                 'replay': path, 'seed': seed, 'info': info})
+    return True
+
+  enum_every = getattr(mod, 'ENUM_EVERY', {}).get(tier)
+  for ri in range(nruns):
+    seed = derive_seed(base_seed, mod.PROP, tier, 'run', gi, ri)
+    plan = mod.gen_plan(stream(seed, 'plan'), cfg, tier)
+    chspec = {'seed': derive_seed(seed, 'sched'), 'p_preempt': plan.get('p_preempt', 0.0),
+              'p_tie': plan.get('p_tie', 0.5), 'pct_points': plan.get('pct_points')}
+    res = run_child(w, mod, plan, chspec)
+    ok = absorb(seed, plan, res)
+    if ok and enum_every and ri % enum_every == 0 and hasattr(mod, 'enumerate_variants'):
+      # fault / crash-point enumeration relative to this seeded base run: the same plan
+      # is re-executed once per placement, from the schedule the base run recorded
+      base = mod.enumeration_base(plan) if hasattr(mod, 'enumeration_base') else plan
+      bres = res
+      if base is not plan:
+        bres = run_child(w, mod, base, chspec)
+        if not absorb(seed, base, bres, enumerated=True):
+          continue
+      for vplan in mod.enumerate_variants(base, bres, stream(seed, 'enum'), tier):
+        vres = run_child(w, mod, vplan, {'explicit': bres['choices']})
+        absorb(seed, vplan, vres, enumerated=True)
   out['sigs'] = sorted(sigs)
   return out
 
@@ -408,6 +427,7 @@ def drive(mod, tier, base_seed, groups, runs_per_group, budget_s, opts=None):
     merged['violations'].extend(g.get('violations', []))
     merged['harness_errors'].extend(g.get('harness_errors', []))
     merged['collected'].extend(g.get('collected', []))
+    merged['enumerated'] = merged.get('enumerated', 0) + g.get('enumerated', 0)
     for s in g.get('samples', []):
       if len(merged['samples']) < 4:
         merged['samples'].append(s)
